@@ -2,9 +2,12 @@
   C08Q — round-to-integral: the result is the exact value rounded to an integer in the stated
   direction (over ℚ), with exponent 0 (or the operand unchanged when its exponent is ≥ 0), and the
   "changed" indication is raised iff the value changed.  modf: integral part = truncation; fractional
-  part = exact difference (conditional on exactness of the model's subtraction, see below).
+  part = exact difference (`modf_spec_Q`, unconditional for members of the format, using the `finish`
+  theorem of `DecProofs.Core.Finish`; `modf_fraction` is the older form conditional on exactness of the
+  model's subtraction and does not depend on `Finish`).
 -/
 import DecProofs.Core.RoundQ
+import DecProofs.Core.Finish
 import DecProofs.Properties.C06Q
 import DecProofs.Properties.C08
 
@@ -155,11 +158,10 @@ theorem fval_setSign (s sf : Bool) (cf : Nat) (ef : Int)
 /-- operands with non-negative exponent are integers: modf returns x itself and a zero of x's sign
 (unconditional) -/
 theorem modf_of_nonneg_exp (s : Bool) (c : Nat) (e : Int) (h : 0 ≤ e) :
-    ∃ ez, modfD (.fin s c e) = (.fin s c e, .fin s 0 ez) := by
+    modfD (.fin s c e) = (.fin s c e, .fin s 0 (clampInt eMin eMax e)) := by
   rw [C08.modf_spec, C08.integral_unchanged .rtz s c e h]
   have hS : sInt s (c * 10 ^ (e - e).toNat) + sInt (!s) (c * 10 ^ (e - e).toNat) = 0 := by
     unfold sInt; cases s <;> simp
-  refine ⟨clampInt eMin eMax e, ?_⟩
   simp only [subD, Datum.negate, Datum.neg, Datum.setSign, addD, addFin, le_refl, if_true, hS, zeroAt]
 
 /-- **modf, fractional part** — conditional on exactness of the model's subtraction in this special
@@ -183,6 +185,110 @@ theorem modf_fraction (s : Bool) (c : Nat) (e : Int) (sf : Bool) (cf : Nat) (ef 
     rw [hsub]
     exact sub_trunc_sign s c e _ rfl
 
-example : modfD (.fin true 1234 (-2)) = (.fin true 12 0, .fin true 34 (-2)) := by decide +kernel
+/-! #### modf, unconditional (uses `finish_representable` from `DecProofs.Core.Finish`) -/
+
+theorem sub_trunc_int (s : Bool) (c D : Nat) :
+    sInt s (c * 10 ^ 0) + sInt (!s) (c / D * D) = sInt s (c % D) := by
+  have h := Nat.div_add_mod c D
+  rw [Nat.mul_comm] at h
+  generalize c / D * D = a at h ⊢
+  generalize c % D = r at h ⊢
+  unfold sInt; cases s <;> simp <;> omega
+
+theorem sInt_ne_zero (s : Bool) (r : Nat) (hr : r ≠ 0) : sInt s r ≠ 0 := by
+  unfold sInt; cases s <;> simp [hr]
+
+theorem sInt_neg_iff (s : Bool) (r : Nat) (hr : r ≠ 0) : decide (sInt s r < 0) = s := by
+  unfold sInt; cases s
+  · simp
+  · simp; omega
+
+theorem sInt_natAbs' (s : Bool) (r : Nat) : (sInt s r).natAbs = r := by
+  unfold sInt; cases s <;> simp
+
+/-- modf of a member of the format with negative exponent, computed: integral part `⌊c / 10^(-e)⌋`
+with exponent 0, fractional part `(c mod 10^(-e))·10^e` (a zero fraction gets the clamped exponent),
+both with the sign of x -/
+theorem modf_of_neg_exp (s : Bool) (c : Nat) (e : Int) (h : e < 0) (hc : c < P34) (he : eMin ≤ e) :
+    modfD (.fin s c e) =
+      (.fin s (c / 10 ^ (-e).toNat) 0,
+       .fin s (c % 10 ^ (-e).toNat) (if c % 10 ^ (-e).toNat = 0 then clampInt eMin eMax e else e)) := by
+  rw [C08.modf_spec, C08.integral_rounded .rtz s c e h]
+  have hq : roundInt .rtz s (c / 10 ^ (-e).toNat) (c % 10 ^ (-e).toNat) (10 ^ (-e).toNat) = c / 10 ^ (-e).toNat := by
+    simp [roundInt, roundUp]
+  rw [hq]
+  have hm : (if e ≤ 0 then e else 0) = e := by simp [h.le]
+  have e1 : (e - e).toNat = 0 := by omega
+  have e2 : ((0 : Int) - e).toNat = (-e).toNat := by omega
+  simp only [subD, Datum.negate, Datum.neg, Datum.setSign, addD, addFin, hm, e1, e2, sub_trunc_int]
+  by_cases hr : c % 10 ^ (-e).toNat = 0
+  · simp [hr, sInt, zeroAt]
+  · have hS := sInt_ne_zero s _ hr
+    have hneg := sInt_neg_iff s _ hr
+    have habs := sInt_natAbs' s (c % 10 ^ (-e).toNat)
+    have hlt : c % 10 ^ (-e).toNat < P34 := Nat.lt_of_le_of_lt (Nat.mod_le _ _) hc
+    have hmax : e ≤ eMax := by unfold eMax; omega
+    simp only [hS, if_false, hneg, habs, hr]
+    rw [finish_representable .rne s _ e hr hlt he hmax]
+
+/-- **modf (C08).**  For every finite member x of the format, modf returns two finite members of the
+format, both with the sign of x: the integral part has the value of x truncated toward zero, and the
+fractional part has exactly the value `x − integral part` (no rounding, no flag is involved). -/
+theorem modf_spec_Q (s : Bool) (c : Nat) (e : Int) (hrep : Representable c e) :
+    ∃ mi cf ef, modfD (.fin s c e) = (.fin s mi (resExp e), .fin s cf ef) ∧
+      Representable cf ef ∧
+      fval s mi (resExp e) = ((if 0 ≤ fval s c e then ⌊fval s c e⌋ else ⌈fval s c e⌉ : Int) : ℚ) ∧
+      fval s cf ef = fval s c e - fval s mi (resExp e) := by
+  obtain ⟨hc, he1, he2⟩ := hrep
+  obtain ⟨mi, hi1, hi2⟩ := modf_integral s c e
+  have hclamp := clampInt_spec e (show eMin ≤ eMax by decide)
+  by_cases h : 0 ≤ e
+  · have hz := modf_of_nonneg_exp s c e h
+    have hre : resExp e = e := by simp [resExp, h]
+    refine ⟨c, 0, clampInt eMin eMax e, by rw [hre, hz], ⟨by decide, hclamp.1, hclamp.2.1⟩, ?_, ?_⟩
+    · rw [hz, hre] at hi1
+      simp only [Datum.fin.injEq, true_and, and_true] at hi1
+      rw [← hi2, ← hi1]
+    · rw [hre]; simp [fval]
+  · have h' : e < 0 := by omega
+    have hre : resExp e = 0 := by simp [resExp, h']
+    have hm := modf_of_neg_exp s c e h' hc he1
+    have hD : 0 < 10 ^ (-e).toNat := pow10_pos _
+    have hmi : mi = c / 10 ^ (-e).toNat := by
+      rw [hm, hre] at hi1
+      simp only [Datum.fin.injEq, true_and, and_true] at hi1
+      exact hi1.symm
+    refine ⟨c / 10 ^ (-e).toNat, c % 10 ^ (-e).toNat, _, by rw [hm, hre], ?_, by rw [← hmi]; exact hi2, ?_⟩
+    · refine ⟨Nat.lt_of_le_of_lt (Nat.mod_le _ _) hc, ?_, ?_⟩
+      · split
+        · exact hclamp.1
+        · exact he1
+      · split
+        · exact hclamp.2.1
+        · exact he2
+    · -- value: (c mod D)·10^e = c·10^e − ⌊c/D⌋
+      have hval : ∀ ef : Int, (c % 10 ^ (-e).toNat = 0 → fval s (c % 10 ^ (-e).toNat) ef = 0) := by
+        intro ef h0; rw [h0]; simp [fval]
+      have hmain : fval s (c % 10 ^ (-e).toNat) e = fval s c e - fval s (c / 10 ^ (-e).toNat) (resExp e) := by
+        rw [hre]
+        have hdm := cast_div_add_mod_div c (10 ^ (-e).toNat) hD
+        have hd : ((10 ^ (-e).toNat : Nat) : ℚ) ≠ 0 := by exact_mod_cast hD.ne'
+        unfold fval
+        rw [zpow10_neg e (by omega), zpow_zero]
+        have : (c : ℚ) = ((c / 10 ^ (-e).toNat : Nat) : ℚ) * ((10 ^ (-e).toNat : Nat) : ℚ) + ((c % 10 ^ (-e).toNat : Nat) : ℚ) := by
+          have := Nat.div_add_mod c (10 ^ (-e).toNat)
+          rw [Nat.mul_comm] at this
+          exact_mod_cast this.symm
+        rw [this]
+        generalize ((c / 10 ^ (-e).toNat : Nat) : ℚ) = q
+        generalize ((c % 10 ^ (-e).toNat : Nat) : ℚ) = r
+        field_simp
+        ring
+      by_cases h0 : c % 10 ^ (-e).toNat = 0
+      · rw [if_pos h0, hval _ h0, ← hmain, hval _ h0]
+      · rw [if_neg h0]; exact hmain
+
+example : Representable 1234 (-2) ∧ modfD (.fin true 1234 (-2)) = (.fin true 12 0, .fin true 34 (-2)) :=
+  ⟨⟨by decide, by decide, by decide⟩, by decide +kernel⟩
 
 end Dec.C08Q
